@@ -6,8 +6,8 @@ import elisp_mini as E
 PROP = "C19"
 CONS = "tbjfhswrypkgzcv"
 GENS = ["gen_elisp"]
-CONE = ["Base/Str.v", "Base/ListUtil.v", "Kana/Romaji.v", "Kana/RomajiProofs.v", "Props/C19.v", "Gen/ElispTables.v"]
-THEOREMS = ["C19_table_typeable", "C19_table_typeable_each", "C19_total", "C19_passthrough", "C19_kana_inert", "C19_sokuon",
+CONE = ["Base/Str.v", "Base/ListUtil.v", "Kana/Romaji.v", "Kana/RomajiProofs.v", "Kana/RomajiIdem.v", "Props/C19.v", "Gen/ElispTables.v"]
+THEOREMS = ["C19_table_typeable", "C19_table_typeable_each", "C19_total", "C19_passthrough", "C19_kana_inert", "C19_sokuon", "C19_idempotent",
             "C19_kata_app", "C19_kata_char", "C19_kata_table"]
 IMPORTS = "From Chokan Require Import Base.Str Base.ListUtil Gen.ElispTables Kana.Romaji."
 
@@ -134,7 +134,6 @@ Definition ccheck (c : ccase) : bool :=
         "exhaustive_reduced_alphabet_len": L,
         "traces_validated_against_impl": n_model,
         "samples": inputs[260:266] + inputs[-3:],
-        "not_proved": "idempotence (r2h (r2h s) = r2h s) is checked on every explored input but has no general proof yet",
     }
     return res.finish(cov, ["Emacs itself cannot be run here"])
 
